@@ -223,7 +223,7 @@ def parse_eval_lists(out):
     res = []
     for m in re.finditer(r"=\s*(\[[^\]]*\]|nil)\s*:\s*list N", out.replace("\n", " ")):
         body = m.group(1)
-        res.append([int(x) for x in re.findall(r"(\d+)%N", body)] if body != "nil" else [])
+        res.append([int(x) for x in re.findall(r"(\d+)(?:%N)?", body)] if body != "nil" else [])
     return res
 
 
@@ -451,6 +451,13 @@ def cmd_setup():
             print(f"harness bin {b}: {'ok' if r == 0 else 'FAILED'}")
         rc2 = 0
     print(out2[-2000:] if rc2 != 0 else f"harness: ok ({dt:.0f}s)")
+    # optional per-property setup (e.g. C20 builds the `yr` binary it replays fixes on)
+    for p in sorted(glob.glob(os.path.join(ROOT, "checks", "C*.py"))):
+        try:
+            m = importlib.import_module("checks." + os.path.basename(p)[:-3])
+            if hasattr(m, "setup"): m.setup(sys.modules[__name__])
+        except Exception as e:
+            print(f"setup of {os.path.basename(p)}: {type(e).__name__}: {e}")
     print(f"setup done in {time.time()-t0:.0f}s")
     return 0 if (rc2 == 0) else 1
 
